@@ -125,8 +125,9 @@ pub fn run_c04(shard: &Shard) -> i32 {
     const PROP: &str = "C04";
     set_current(PROP, true);
     if let Some(path) = &shard.replay { return replay(path, PROP); }
+    let stress_only = std::env::var("VH_STRESS_ONLY").is_ok();
     case_loop(shard, u64::MAX, |_i, rng| {
-        if shard.idx % 4 != 3 {
+        if shard.idx % 4 != 3 && !stress_only {
             let long = rng.chance(1, 8);
             let spec = tiny_spec(rng, long);
             let mut plan = random_plan(rng, shard.quick());
@@ -164,8 +165,19 @@ pub fn run_c03(shard: &Shard) -> i32 {
     const PROP: &str = "C03";
     set_current(PROP, false);
     if let Some(path) = &shard.replay { return replay(path, PROP); }
+    let stress_only = std::env::var("VH_STRESS_ONLY").is_ok();
+    if std::env::var("VH_SMALL").is_ok() {
+        // Miri add-on: a few 2-worker free-running solves of tiny instances under the interpreter
+        let mut rng = crate::util::Rng::derive(shard.seed, &[0x33]);
+        for _ in 0..10 {
+            let mut spec = tiny_spec(&mut rng, false);
+            spec.cfg.par = Some(Par { n0: 2, n1: None, mode: ParMode::Free });
+            with_family!(spec.family, stress_case, &spec, PROP);
+        }
+        return 0;
+    }
     case_loop(shard, u64::MAX, |_i, rng| {
-        if shard.idx % 4 != 3 {
+        if shard.idx % 4 != 3 && !stress_only {
             let long = rng.chance(1, 6);
             let spec = tiny_spec(rng, long);
             let plan = random_plan(rng, shard.quick());
